@@ -42,6 +42,12 @@ class AMinusB(SameArrayShapeMixin, Command):
         b = kwargs["B"].result
         self.validate_array_shapes([a, b], lineno=self.lineno)
 
+        # Unsigned integers ("Positive Integer" data) cannot hold a negative difference: 3 - 5 would wrap around
+        if a.dtype.kind == "u":
+            a = a.astype(numpy.int64)
+        if b.dtype.kind == "u":
+            b = b.astype(numpy.int64)
+
         return a - b
 
 
